@@ -16,6 +16,7 @@ RULE = ("6 strategies + FunctionRFA with two user suppliers x all grids G(8,m) m
 ASSUMPTIONS = ["'equally spaced' is judged to 4 ulp of the gap's end points (np.linspace rounding)",
                "user suppliers tried: np.interp returning a Python float and a 0-d array"]
 ANCHORS = {"rfa.py": [(50, 55), (70, 90), (132, 136), (259, 280)], "sorted_array_utils.py": [(57, 91)]}
+FORMS_HARNESSES = "all"
 EXPLANATION = "structural invariants evaluated on every element of a bounded configuration lattice"
 
 SUPPLIERS = {"interp-float": lambda x, y: (lambda t: float(np.interp(t, x, y))),
